@@ -14,7 +14,7 @@
    presence word, element order, the selected oneof member, unknown fields in order, and the
    pointer state (NULL / static default / heap) of every absent field. *)
 From Coq Require Import ZArith List Bool.
-From PBC Require Import Impl.Desc Impl.Mem Impl.Pack Impl.Unpack Impl.Canon Impl.WNorm Proofs.MsgRT4 Proofs.WNormPack Proofs.Examples.
+From PBC Require Import Impl.Desc Impl.Mem Impl.Pack Impl.Unpack Impl.Canon Impl.WF Impl.Check Impl.WNorm Impl.Typed Proofs.MsgRT4 Proofs.WNormPack Proofs.WfCanon Proofs.CheckReqsub Proofs.Examples.
 Import ListNotations.
 Local Open Scope Z_scope.
 
@@ -51,3 +51,27 @@ Theorem C01_roundtrip_to_normal_form : forall (E : env), env_ok E = true -> fora
   unpack_top E (m_desc m) b = Ok (wnorm_msg E m).
 Proof. exact roundtrip_to_normal_form. Qed.
 Print Assumptions C01_roundtrip_to_normal_form.
+
+(* The hypothesis "the normal form is canonical" discharged: it holds for EVERY message that is
+     - well-formed (wf_msg: what the serialisers may be handed at all),
+     - accepted by protobuf_c_message_check (check_msg; it rejects a NULL required sub-message, which the serialiser
+       would write as an empty one), and
+     - well-typed (typed_msg, Impl/Typed.v: conditions C's types impose on anything built through the generated
+       structs -- a oneof member lives in the union of its own oneof, a case word holds a value of that oneof's
+       enum, a sub-message pointer points at a message of the field's declared type -- plus: retained unknown
+       fields are records the scanner would have stored).  typed_msg restricts no value: has flags other than 0/1,
+       bools other than 0/1, NULL / default pointers, array slack and stale values behind cleared flags are allowed.
+   So pack-then-unpack returns the normal form of every such message.  Proofs/WfCanon.v also shows by example that
+   each typing condition, and the check, is needed. *)
+Theorem C01_normal_form_of_checked_well_typed_message_is_canonical : forall (E : env) (m : msg),
+  env_ok E = true -> wf_msg E m = true -> typed_msg E m = true -> check_msg E m = Ok true ->
+  canon_msg E (wnorm_msg E m) = true.
+Proof. exact checked_typed_canon. Qed.
+Print Assumptions C01_normal_form_of_checked_well_typed_message_is_canonical.
+
+Theorem C01_roundtrip_of_every_checked_well_typed_message : forall (E : env) (m : msg) (b : list Z),
+  env_ok E = true -> wf_msg E m = true -> typed_msg E m = true -> check_msg E m = Ok true ->
+  pack_msg E m = Ok b -> Z.of_nat (length b) <= 2147483647 ->
+  unpack_top E (m_desc m) b = Ok (wnorm_msg E m).
+Proof. exact checked_typed_roundtrip. Qed.
+Print Assumptions C01_roundtrip_of_every_checked_well_typed_message.
